@@ -204,41 +204,45 @@ func c15e2eCase(r *ev.Run, op muxOpener, g *rng.R, caseID string, caseN uint32) 
 	// senders
 	dst := b.LocalAddrs()[0]
 	var swg sync.WaitGroup
+	// several goroutines send on the same channel at once: framing must not share state between calls
+	const sendersPerChan = 3
 	for i := range ids {
-		i := i
-		sg := g.Fork()
-		swg.Add(1)
-		go func() {
-			defer swg.Done()
-			for s := 0; s < perChan; s++ {
-				fill := sg.Bytes(sg.Intn(40))
-				if sg.Chance(1, 8) {
-					fill = nil
-				}
-				pl := e2ePayload(caseN, i, s, fill)
-				mu.Lock()
-				ledger[string(pl)] = i
-				mu.Unlock()
-				if sendEnds[i].ask != nil && sg.Chance(1, 3) && i != unopened {
-					resp := make([]byte, 256)
-					actx, cf := context.WithTimeout(ctx, 5*time.Second)
-					n, err := sendEnds[i].ask.Ask(actx, resp, dst, splitVec(sg, pl))
-					cf()
-					if err == nil {
-						want := append([]byte(fmt.Sprintf("R%d:", i)), pl...)
-						if string(resp[:n]) != string(want) {
-							r.Violate("C15/e2e-ask-response/"+op.name, caseID, "ask on a channel returned a response not produced by that channel's handler for this request", map[string]any{"chan": fmt.Sprintf("%q", fmt.Sprint(ids[i])), "got": fmt.Sprintf("%q", resp[:n]), "want": fmt.Sprintf("%q", want)})
-						} else {
-							r.Count("e2e_asks_answered", 1)
-						}
+		for w := 0; w < sendersPerChan; w++ {
+			i, w := i, w
+			sg := g.Fork()
+			swg.Add(1)
+			go func() {
+				defer swg.Done()
+				for s := w * 1000; s < w*1000+perChan; s++ {
+					fill := sg.Bytes(sg.Intn(40))
+					if sg.Chance(1, 8) {
+						fill = nil
 					}
-					continue
+					pl := e2ePayload(caseN, i, s, fill)
+					mu.Lock()
+					ledger[string(pl)] = i
+					mu.Unlock()
+					if sendEnds[i].ask != nil && sg.Chance(1, 3) && i != unopened {
+						resp := make([]byte, 256)
+						actx, cf := context.WithTimeout(ctx, 5*time.Second)
+						n, err := sendEnds[i].ask.Ask(actx, resp, dst, splitVec(sg, pl))
+						cf()
+						if err == nil {
+							want := append([]byte(fmt.Sprintf("R%d:", i)), pl...)
+							if string(resp[:n]) != string(want) {
+								r.Violate("C15/e2e-ask-response/"+op.name, caseID, "ask on a channel returned a response not produced by that channel's handler for this request", map[string]any{"chan": fmt.Sprintf("%q", fmt.Sprint(ids[i])), "got": fmt.Sprintf("%q", resp[:n]), "want": fmt.Sprintf("%q", want)})
+							} else {
+								r.Count("e2e_asks_answered", 1)
+							}
+						}
+						continue
+					}
+					if err := sendEnds[i].tell.Tell(ctx, dst, splitVec(sg, pl)); err == nil && i != unopened {
+						sent.Add(1)
+					}
 				}
-				if err := sendEnds[i].tell.Tell(ctx, dst, splitVec(sg, pl)); err == nil && i != unopened {
-					sent.Add(1)
-				}
-			}
-		}()
+			}()
+		}
 	}
 	swg.Wait()
 	// wait for deliveries to drain: until everything accepted was received, or quiescence
